@@ -29,6 +29,7 @@ import (
 	"time"
 
 	"github.com/uber-go/tally/v4/internal/identity"
+	"github.com/uber-go/tally/v4/internal/verifhook"
 )
 
 var (
@@ -81,10 +82,12 @@ func (c *counter) value() int64 {
 	//      prev past the value of curr read here.
 	for {
 		prev := atomic.LoadInt64(&c.prev)
+		verifhook.Point(verifhook.CtrLoaded1)
 		curr := atomic.LoadInt64(&c.curr)
 		if prev == curr {
 			return 0
 		}
+		verifhook.Point(verifhook.CtrLoaded2)
 		if atomic.CompareAndSwapInt64(&c.prev, prev, curr) {
 			return curr - prev
 		}
@@ -125,6 +128,7 @@ func newGauge(cachedGauge CachedGauge) *gauge {
 
 func (g *gauge) Update(v float64) {
 	atomic.StoreUint64(&g.curr, math.Float64bits(v))
+	verifhook.Point(verifhook.GaugeBetweenStores)
 	atomic.StoreUint64(&g.updated, 1)
 }
 
@@ -134,12 +138,14 @@ func (g *gauge) value() float64 {
 
 func (g *gauge) report(name string, tags map[string]string, r StatsReporter) {
 	if atomic.SwapUint64(&g.updated, 0) == 1 {
+		verifhook.Point(verifhook.GaugeSwapped)
 		r.ReportGauge(name, tags, g.value())
 	}
 }
 
 func (g *gauge) cachedReport() {
 	if atomic.SwapUint64(&g.updated, 0) == 1 {
+		verifhook.Point(verifhook.GaugeSwapped)
 		g.cachedGauge.ReportGauge(g.value())
 	}
 }
